@@ -376,6 +376,21 @@ def gen_event(rnd, g: Guide, prof):
     k = rnd.choices([x for x, _ in kinds], [w for _, w in kinds])[0]
     if not names and k not in ('CT',):
         k = 'CT'
+    if not wild:
+        # steer towards events that can apply: fall back to creating what is missing
+        has_ptr = [n for n in names if T[n]['own']]
+        has_link = [n for n in names if any(v['link'] for v in T[n]['own'].values())]
+        has_lp = [n for n in names if any(v['link'] and v['lps'] for v in T[n]['own'].values())]
+        if k in ('DP', 'RP', 'SM', 'SR', 'SC') and not has_ptr:
+            k = 'CP'
+        if k == 'CL' and not has_link:
+            k = 'CP'
+        if k in ('DL', 'RL', 'SL') and not has_lp:
+            k = 'CL' if has_link else 'CP'
+        if k == 'DB' and not any(T[n]['bases'] for n in names):
+            k = 'CT'
+        if k == 'AB' and len(names) < 2:
+            k = 'CT'
     if k == 'CT':
         free = [n for n in range(NT) if n not in T]
         n = pick(rnd, free) if (free and not wild) else rnd.randrange(NT)
@@ -405,7 +420,14 @@ def gen_event(rnd, g: Guide, prof):
         n = anyT()
         cand = [b for b in names if n in T and b not in g.cone(n) and b not in T[n]['bases']
                 and all(not (set(g.vis(b)) & set(g.vis(d))) for d in g.cone(n))]
-        b = pick(rnd, cand) if (cand and not wild and rnd.random() < 0.9) else anyT()
+        if not cand and not wild:
+            for n2 in rnd.sample(names, len(names)):
+                cand = [b for b in names if b not in g.cone(n2) and b not in T[n2]['bases']
+                        and all(not (set(g.vis(b)) & set(g.vis(d))) for d in g.cone(n2))]
+                if cand:
+                    n = n2
+                    break
+        b = pick(rnd, cand) if (cand and not wild and rnd.random() < 0.95) else anyT()
         return ('AB', n, b)
     if k == 'DB':
         cand = [(n, b) for n in names for b in T[n]['bases']]
@@ -414,6 +436,13 @@ def gen_event(rnd, g: Guide, prof):
         return ('DB', anyT(), anyT())
     # pointer-level events
     n = anyT()
+    if not wild:
+        if k in ('DP', 'RP', 'SM', 'SR', 'SC') and has_ptr:
+            n = rnd.choice(has_ptr)
+        elif k == 'CL' and has_link:
+            n = rnd.choice(has_link)
+        elif k in ('DL', 'RL', 'SL') and has_lp:
+            n = rnd.choice(has_lp)
     own = dict(T[n]['own']) if n in T else {}
     vis = g.vis(n) if n in T else {}
     if k == 'CP':
@@ -435,6 +464,8 @@ def gen_event(rnd, g: Guide, prof):
         ownp = list(vis) or ownp
     if k in ('CL', 'DL', 'RL', 'SL'):
         links = [p for p in ownp if vis.get(p, own.get(p, {})).get('link')]
+        if k != 'CL' and not wild:
+            links = [p for p in links if vis.get(p, {}).get('lps')] or links
         p = pick(rnd, links) if (links and not wild) else rnd.randrange(NPROP, NPROP + NLINK)
         lps = dict(vis.get(p, {}).get('lps', {})) if p in vis else {}
         if k == 'CL':
